@@ -242,6 +242,10 @@ pub enum Op {
     Del { ix: usize, id: u32 },
     Clear { ix: usize },
     Build { ix: usize, opts: BuildOpts },
+    /// a build of a NEVER-BUILT index that is cancelled `extra` polls after it entered MainStep `step`
+    /// (skipped when the index has been built: what a cancelled rebuild leaves in the transaction is
+    /// not specified, the caller is expected to abort)
+    CancelledFirstBuild { ix: usize, opts: BuildOpts, step: u8, extra: u64 },
     /// add / append / search with a vector of the wrong length
     BadLen { ix: usize, id: u32, len: usize, kind: u8 },
     ChangeMetric { ix: usize, to: Metric },
@@ -258,6 +262,7 @@ impl Op {
             Op::Del { ix, id } => format!("del(index={}, id={id})", idx(ix)),
             Op::Clear { ix } => format!("clear(index={})", idx(ix)),
             Op::Build { ix, opts } => format!("build(index={}, {})", idx(ix), opts.describe()),
+            Op::CancelledFirstBuild { ix, opts, step, extra } => format!("cancelled-first-build(index={}, {}, cancel {extra} polls into step {step})", idx(ix), opts.describe()),
             Op::BadLen { ix, id, len, kind } => {
                 format!("{}(index={}, id={id}, len={len})", ["bad-add", "bad-append", "bad-search"][*kind as usize], idx(ix))
             }
@@ -273,6 +278,7 @@ impl Op {
             Op::Del { .. } => "del",
             Op::Clear { .. } => "clear",
             Op::Build { .. } => "build",
+            Op::CancelledFirstBuild { .. } => "cancelled_first_build",
             Op::BadLen { .. } => "badlen",
             Op::ChangeMetric { .. } => "change_metric",
             Op::Commit => "commit",
@@ -345,6 +351,8 @@ pub struct Profile {
     pub bulk_max: usize,
     /// probability that an add over a live id writes a same-value / different-bits variant of the stored vector
     pub p_variant_overwrite: f64,
+    /// probability that a build is preceded by a cancelled build attempt (only acts on never-built indexes)
+    pub p_cancelled_first_build: f64,
 }
 
 impl Profile {
@@ -375,6 +383,7 @@ impl Profile {
             p_bulk: 0.0,
             bulk_max: 600,
             p_variant_overwrite: 0.0,
+            p_cancelled_first_build: 0.0,
         }
     }
 }
@@ -641,6 +650,13 @@ pub fn gen_case(seed: u64, p: &Profile) -> Case {
                 opts[ix].rng_seed = rng.gen_range(0..1u64 << 40);
                 opts[ix].threads = pick(&mut rng, &p.threads);
             }
+            if p.p_cancelled_first_build > 0.0 && rng.gen_bool(p.p_cancelled_first_build) {
+                ops.push(Op::CancelledFirstBuild { ix, opts: opts[ix].clone(), step: rng.gen_range(0..10), extra: [0u64, 0, 1, 3, 10, 40][rng.gen_range(0..6)] });
+                if rng.gen_bool(0.5) {
+                    // the caller may even commit what the failed build left behind
+                    ops.push(Op::Commit);
+                }
+            }
             let mut o = opts[ix].clone();
             // automatic tree counts grow with the dimension (~min(n, dims) trees): keep big live sets affordable
             if o.n_trees.is_none() && live[ix].len() > 200 && model.ix[ix].dims > 16 {
@@ -711,6 +727,7 @@ pub fn run_build<D: Distance>(
     opts: &BuildOpts,
     limit: u64,
     loop_limit: u64,
+    cancel_plan: Option<(u8, u64)>,
 ) -> BuildOutcome {
     #[cfg(arroy_verif)]
     {
@@ -719,6 +736,9 @@ pub fn run_build<D: Distance>(
     }
     let polls = AtomicU64::new(0);
     let tripped = std::sync::atomic::AtomicBool::new(false);
+    let planned = std::sync::atomic::AtomicBool::new(false);
+    let step_now = std::sync::atomic::AtomicU8::new(0);
+    let polls_in_step = AtomicU64::new(0);
     let mut rng = StdRng::seed_from_u64(opts.rng_seed);
     let pool = pool(opts.threads);
     let r = guarded(|| {
@@ -733,14 +753,29 @@ pub fn run_build<D: Distance>(
             if let Some(mem) = opts.memory {
                 b.available_memory(mem);
             }
+            b.progress(|pr| {
+                step_now.store(pr.main as u8, Ordering::Relaxed);
+            });
             b.cancel(|| {
                 let p = polls.fetch_add(1, Ordering::Relaxed);
                 if p > limit {
                     tripped.store(true, Ordering::Relaxed);
-                    true
-                } else {
-                    false
+                    return true;
                 }
+                // planned cancellation: monotone, from `extra` polls after the build entered `step`
+                if let Some((step, extra)) = cancel_plan {
+                    if planned.load(Ordering::Relaxed) {
+                        return true;
+                    }
+                    if step_now.load(Ordering::Relaxed) >= step {
+                        let since = polls_in_step.fetch_add(1, Ordering::Relaxed);
+                        if since >= extra {
+                            planned.store(true, Ordering::Relaxed);
+                            return true;
+                        }
+                    }
+                }
+                false
             });
             b.build(wtxn)
         })
@@ -1162,7 +1197,7 @@ impl Engine<'_> {
             self.log.push(desc.clone());
         }
         let op_ix = match op {
-            Op::Add { ix, .. } | Op::Append { ix, .. } | Op::Del { ix, .. } | Op::Clear { ix } | Op::Build { ix, .. } | Op::BadLen { ix, .. } | Op::ChangeMetric { ix, .. } => *ix,
+            Op::Add { ix, .. } | Op::Append { ix, .. } | Op::Del { ix, .. } | Op::Clear { ix } | Op::Build { ix, .. } | Op::CancelledFirstBuild { ix, .. } | Op::BadLen { ix, .. } | Op::ChangeMetric { ix, .. } => *ix,
             _ => unreachable!(),
         };
         let (index, metric, dims) = {
@@ -1308,7 +1343,8 @@ impl Engine<'_> {
                         self.c.inc("badlen_rejected");
                     }
                     Ok(other) => {
-                        return Some(self.own(ck.rejected, step, "badlen:result", format!("{desc} -> {other:?}, expected InvalidVecDimension{{expected:{dims},received:{len}}}")))
+                        // a wrong-length vector that is accepted also corrupts the item store (C05)
+                        return Some(self.own(ck.rejected || ck.store, step, "badlen:result", format!("{desc} -> {other:?}, expected InvalidVecDimension{{expected:{dims},received:{len}}}")))
                     }
                     Err(pm) => return Some(self.own(ck.rejected, step, "badlen:panic", format!("{desc} panicked: {pm}"))),
                 }
@@ -1322,6 +1358,35 @@ impl Engine<'_> {
             Op::Build { opts, .. } => {
                 if let Some(end) = self.build(world, wtxn, model, op_ix, opts, step, rng, tmpdir, &desc) {
                     return Some(end);
+                }
+            }
+            Op::CancelledFirstBuild { opts, step: cstep, extra, .. } => {
+                if model.ix[op_ix].has_metadata {
+                    return None;
+                }
+                let n = model.ix[op_ix].items.len();
+                let out = with_metric!(metric, D, {
+                    let w = self.writers.get::<D>(db, index, metric, dims, tmpdir);
+                    run_build::<D>(wtxn, w, opts, poll_bound(n, opts.n_trees.unwrap_or(dims) + 1, n / 200 + 2), loop_bound(n, opts.n_trees.unwrap_or(dims) + 1), Some((*cstep, *extra)))
+                });
+                match out {
+                    BuildOutcome::Ok { .. } => {
+                        // the plan came too late: this was an ordinary successful first build
+                        let m = &mut model.ix[op_ix];
+                        m.has_metadata = true;
+                        m.dirty = false;
+                        m.forest_reset();
+                        m.capacity_mixed = true;
+                        self.c.inc("cancel_plan_too_late");
+                    }
+                    BuildOutcome::Err { cancelled: true, .. } => {
+                        // a cancelled build is not a build: the index is still never-built
+                        self.c.inc("first_builds_cancelled");
+                        self.c.inc(&format!("first_build_cancelled_in_step_{cstep}"));
+                    }
+                    BuildOutcome::Err { err, .. } => return Some(self.own(ck.build_must_succeed, step, "build:error", format!("{desc} failed with {err} instead of BuildCancelled"))),
+                    BuildOutcome::Panic(pm) => return Some(self.own(ck.build_must_succeed || ck.staleness, step, "build:panic", format!("{desc} panicked: {pm}"))),
+                    BuildOutcome::NonTerminating { .. } => return Some(self.own(ck.termination, step, "build:nonterminating", format!("{desc} exceeded its logical clock"))),
                 }
             }
             Op::Commit | Op::Abort => unreachable!(),
@@ -1429,7 +1494,7 @@ impl Engine<'_> {
         }
         let out = with_metric!(metric, D, {
             let w = self.writers.get::<D>(db, index, metric, dims, tmpdir);
-            run_build::<D>(wtxn, w, opts, limit, loop_limit)
+            run_build::<D>(wtxn, w, opts, limit, loop_limit, None)
         });
         #[cfg(arroy_verif)]
         {
